@@ -188,6 +188,10 @@ class HistGen:
                                              b"-1:" + pk.hex().encode() + b":"])])
             else:
                 tags.append([r.choice([b"p", b"t", b"ee"]), b"v"])
+        if r.random() < 0.3:
+            # NIP-09 `k` tags (the kinds of the named events): right, wrong, malformed - they must not change what is deleted
+            for _ in range(r.choice([1, 1, 2])):
+                tags.insert(r.randrange(len(tags) + 1), [b"k", r.choice([b"1", b"7", b"5", b"30023", b"10000", b"x", b"", b"65536"])])
         e = self.new_event(kind=5, pk=pk, tags=tags)
         self.op_store(e)
 
